@@ -34,6 +34,7 @@ CONSTANTS
   MaxNet,      \* messages in flight (async kinds)
   W,           \* weakenings in force (set of strings), {} for the real protocol
   MayTimeout,  \* role script: the nodes whose election timer may fire (Node = no restriction)
+  MayLink,     \* role script: the pairs {n, p} of nodes that may exchange messages ({} = no restriction)
   Gen          \* TRUE in behaviour-generation configurations: the free timing choices (sticky,
                \* stay) are fixed to the value the replay driver can enforce (contact lapsed)
 
@@ -339,22 +340,27 @@ OnISReply(s, n, p, m, r) ==
 
 NewlyCommitted(old, new) == {i \in (old.commit + 1)..new.commit : HasIdx(new.log, i)}
 
+\* comm: index -> [e: the entry first reported committed there, ct: the term of the node that
+\* reported it first (the term the commitment happened in, or a later one)]
 CommNext(c, old, new) ==
   LET I == {i \in NewlyCommitted(old, new) : i \notin DOMAIN c} IN
-  [i \in DOMAIN c \cup I |-> IF i \in DOMAIN c THEN c[i] ELSE At(new.log, i)]
+  [i \in DOMAIN c \cup I |-> IF i \in DOMAIN c THEN c[i] ELSE [e |-> At(new.log, i), ct |-> new.term]]
 
 \* a node's commit index covers an entry that differs from what was committed first
 CommitViolation(c, old, new) ==
-  \E i \in NewlyCommitted(old, new) : i \in DOMAIN c /\ c[i] # At(new.log, i)
+  \E i \in NewlyCommitted(old, new) : i \in DOMAIN c /\ c[i].e # At(new.log, i)
 
 \* the same, where one of the two entries is a client operation (the only kind the state machine
 \* is handed, hence the only kind an execution of the code shows as a C01 violation)
 CommitViolationOp(c, old, new) ==
-  \E i \in NewlyCommitted(old, new) : i \in DOMAIN c /\ c[i] # At(new.log, i) /\ (c[i].k = "op" \/ At(new.log, i).k = "op")
+  \E i \in NewlyCommitted(old, new) : i \in DOMAIN c /\ c[i].e # At(new.log, i) /\ (c[i].e.k = "op" \/ At(new.log, i).k = "op")
 
-\* a node that becomes leader lacks a committed entry
-CompletenessViolation(c, s) ==
-  \E i \in DOMAIN c : i > s.log.base /\ (~HasIdx(s.log, i) \/ At(s.log, i) # c[i])
+\* a node that becomes leader of term t lacks an entry committed in an earlier term.  (A node can
+\* still win an OLD term after a newer leader has committed - with five voters: its last vote was
+\* cast before the voter moved on - and need not hold that entry; "later leaders" are leaders of
+\* later terms, as in Raft's Leader Completeness.)
+CompletenessViolation(c, s, t) ==
+  \E i \in DOMAIN c : c[i].ct < t /\ i > s.log.base /\ (~HasIdx(s.log, i) \/ At(s.log, i) # c[i].e)
 
 CommittedThisTerm(s) ==
   IF HasIdx(s.log, s.commit) THEN At(s.log, s.commit).t = s.term ELSE s.li.term = s.term
@@ -405,7 +411,7 @@ Observe(n, old, new, el, c, vd, ak, v) ==
       ak2 == IF ackNow = {} THEN ak ELSE Max(ak, CHOOSE i \in ackNow : \A j \in ackNow : j <= i)
       v2 == v \cup (IF CommitViolation(c, old, new) THEN {"StateMachineSafety"} ELSE {})
               \cup (IF CommitViolationOp(c, old, new) THEN {"StateMachineSafetyOp"} ELSE {})
-              \cup (IF becameLeader /\ CompletenessViolation(c, old) THEN {"LeaderCompleteness"} ELSE {})
+              \cup (IF becameLeader /\ CompletenessViolation(c, old, new.term) THEN {"LeaderCompleteness"} ELSE {})
               \cup (IF new.term < old.term THEN {"TermMonotone"} ELSE {})
               \cup (IF new.commit < old.commit /\ new.role # "D" /\ old.role # "D" THEN {"CommitMonotone"} ELSE {})
               \cup (IF old.role = "L" /\ new.role = "L" /\ old.term = new.term
@@ -445,6 +451,7 @@ Spend(what) == budget[what] > 0 /\ budget' = [budget EXCEPT ![what] = budget[wha
 (* Actions *)
 
 Up(n) == ns[n].role # "D"
+Linked(n, p) == MayLink = {} \/ {n, p} \in MayLink
 
 \* election(): the whole critical section run by the election loop when the timer fires, as a
 \* function of the node's state (used by the action below and by Heal.tla's recovery strategy)
@@ -491,7 +498,7 @@ AEPair(s, sp, n, p) ==
 RVExchange(n, p) ==
   LET s == ns[n] IN
   /\ "rv" \notin AsyncKinds
-  /\ n # p /\ Up(n) /\ Up(p)
+  /\ n # p /\ Up(n) /\ Up(p) /\ Linked(n, p)
   /\ s.role \in {"P", "C"} /\ s.votes > 0
   /\ (s.role = "P") = s.pre           \* the round in progress belongs to the current role
   /\ p \in VotersOf(s) /\ p \notin s.asked /\ IsVoter(s, n)
@@ -506,7 +513,7 @@ RVExchange(n, p) ==
 RVHalf(n, p) ==
   LET s == ns[n] IN
   /\ "rv" \notin AsyncKinds
-  /\ n # p /\ Up(n) /\ Up(p)
+  /\ n # p /\ Up(n) /\ Up(p) /\ Linked(n, p)
   /\ s.role \in {"P", "C"} /\ s.votes > 0 /\ (s.role = "P") = s.pre
   /\ p \in VotersOf(s) /\ p \notin s.asked /\ IsVoter(s, n)
   /\ Spend("half")
@@ -521,7 +528,7 @@ RVHalf(n, p) ==
 AEExchange(n, p) ==
   LET s == ns[n] IN
   /\ "ae" \notin AsyncKinds
-  /\ n # p /\ Up(n) /\ Up(p)
+  /\ n # p /\ Up(n) /\ Up(p) /\ Linked(n, p)
   /\ s.role = "L" /\ p \in MembersOf(s)
   /\ s.next[p] > s.li.idx              \* otherwise a snapshot is sent (ISExchange)
   /\ Spend("ae")
@@ -533,7 +540,7 @@ AEExchange(n, p) ==
 AEHalf(n, p) ==
   LET s == ns[n] IN
   /\ "ae" \notin AsyncKinds
-  /\ n # p /\ Up(n) /\ Up(p)
+  /\ n # p /\ Up(n) /\ Up(p) /\ Linked(n, p)
   /\ s.role = "L" /\ p \in MembersOf(s) /\ s.next[p] > s.li.idx
   /\ Spend("half") /\ budget["ae"] > 0
   /\ LET m == AERequest(s, n, p)
@@ -666,7 +673,7 @@ PutF(f, k, v) == [x \in DOMAIN f \cup {k} |-> IF x = k THEN v ELSE f[x]]
 VoteRound(s, n) ==
   LET k == s.vr + 1
       s1 == [s EXCEPT !.vr = k, !.cnt = PutF(s.cnt, <<"v", k>>, 1)]
-      ms == {[RVRequest(s1, n) EXCEPT !.kind = "rvq"] @@ [to |-> p, round |-> k] : p \in VotersOf(s1) \ {n}} IN
+      ms == {[RVRequest(s1, n) EXCEPT !.kind = "rvq"] @@ [to |-> p, round |-> k] : p \in {q \in VotersOf(s1) \ {n} : Linked(n, q)}} IN
   [s |-> s1, ms |-> IF IsVoter(s1, n) THEN ms ELSE {}]
 
 \* requests of a new replication round of leader n
@@ -674,7 +681,7 @@ ReplRound(s, n) ==
   LET k == s.hbr + 1
       s1 == [s EXCEPT !.hbr = k, !.cnt = PutF(s.cnt, <<"h", k>>, IF IsVoter(s, n) \/ "LeaderCountsItself" \in W THEN 1 ELSE 0)]
       ms == {[AERequest(s1, n, p) EXCEPT !.kind = "aeq"] @@ [to |-> p, round |-> k] :
-               p \in {q \in MembersOf(s1) \ {n} : s1.next[q] > s1.li.idx}} IN
+               p \in {q \in MembersOf(s1) \ {n} : s1.next[q] > s1.li.idx /\ Linked(n, q)}} IN
   [s |-> s1, ms |-> ms]
 
 \* election(): as TimerFire, plus the requests of the round it starts
@@ -859,7 +866,14 @@ CfgInLog ==
 CommittedDurable ==
   MaxCfg > 0 \/ \A i \in DOMAIN comm :
     \* (an entry covered by a node's newest snapshot is on that node's disk as well)
-    Cardinality({n \in InitVoters : i <= ns[n].snap.idx \/ (HasIdx(ns[n].log, i) /\ At(ns[n].log, i) = comm[i])}) * 2 > Cardinality(InitVoters)
+    Cardinality({n \in InitVoters : i <= ns[n].snap.idx \/ (HasIdx(ns[n].log, i) /\ At(ns[n].log, i) = comm[i].e)}) * 2 > Cardinality(InitVoters)
+
+\* the same for client operations only (what an execution of the code shows: applications and
+\* acknowledgements)
+OpDurable ==
+  MaxCfg > 0 \/ \A i \in {j \in DOMAIN comm : comm[j].e.k = "op"} :
+    \* (an entry covered by a node's newest snapshot is on that node's disk as well)
+    Cardinality({n \in InitVoters : i <= ns[n].snap.idx \/ (HasIdx(ns[n].log, i) /\ At(ns[n].log, i) = comm[i].e)}) * 2 > Cardinality(InitVoters)
 
 TypeOK ==
   /\ \A n \in Node : ns[n].term \in 0..MaxTerm /\ ns[n].role \in {"F", "P", "C", "L", "D"}
